@@ -371,6 +371,8 @@ def py_str(ex, v):
                 return ex.call(BoundMethod(ex.func_of(r[1]), v), [], {})
             return Sym(K.Str, ufn('pystr_obj', [z3.IntSort()], z3.StringSort())(z3.IntVal(v.addr)))
         if isinstance(cell, AbstractObj):
+            if '__str__' in cell.iface.methods:
+                return abstract_call(ex, v, '__str__', [], {})
             return Sym(K.Str, ufn('pystr_abs', [z3.StringSort()], z3.StringSort())(z3.StringVal(cell.name)))
         if isinstance(cell, (HList, HDict, HSet)):
             return py_repr(ex, v)
